@@ -886,6 +886,35 @@ func (x *extractor) factsAds() {
 		stamp = collect + ";" + send
 	}
 	x.set("ads_stamp", stamp)
+	// PacketConn.Close: the socket is unregistered and the withdrawal is stamped while the listener lock is held
+	co := "unknown"
+	if fd := x.fn("pkg/netceptor/packetconn.go", "PacketConn", "Close"); fd != nil {
+		type mark struct {
+			pos  token.Pos
+			name string
+		}
+		var ms []mark
+		ast.Inspect(fd, func(n ast.Node) bool {
+			if c, ok := n.(*ast.CallExpr); ok {
+				switch f := x.str(c.Fun); {
+				case f == "pc.s.GetListenerLock().Lock":
+					ms = append(ms, mark{c.Pos(), "lock"})
+				case f == "delete" && len(c.Args) == 2 && x.str(c.Args[0]) == "pc.s.GetListenerRegistry()":
+					ms = append(ms, mark{c.Pos(), "unregister"})
+				case f == "pc.s.RemoveLocalServiceAdvertisement":
+					ms = append(ms, mark{c.Pos(), "withdraw"})
+				}
+			}
+			return true
+		})
+		sort.Slice(ms, func(i, j int) bool { return ms[i].pos < ms[j].pos })
+		var names []string
+		for _, m := range ms {
+			names = append(names, m.name)
+		}
+		co = strings.Join(names, "<")
+	}
+	x.set("ads_close_order", co)
 	// SendPing listens for notices before it sends
 	po := "unknown"
 	if fd := x.fn("pkg/netceptor/ping.go", "", "SendPing"); fd != nil {
@@ -1105,8 +1134,8 @@ func (x *extractor) factsVerify() {
 			if as, ok := n.(*ast.AssignStmt); ok && x.str(as.Lhs[0]) == "remoteNode" {
 				listener = x.str(as.Rhs[0])
 			}
-			if as, ok := n.(*ast.AssignStmt); ok && x.str(as.Lhs[0]) == "clientTLSCfg.VerifyPeerCertificate" {
-				if c, ok := as.Rhs[0].(*ast.CallExpr); ok && len(c.Args) == 6 && x.str(c.Args[2]) == "remoteNode" {
+			if as, ok := n.(*ast.AssignStmt); ok && (x.str(as.Lhs[0]) == "clientTLSCfg.VerifyPeerCertificate" || x.str(as.Lhs[0]) == "nameVerify") {
+				if c, ok := as.Rhs[0].(*ast.CallExpr); ok && x.str(c.Fun) == "ReceptorVerifyFunc" && len(c.Args) == 6 && x.str(c.Args[2]) == "remoteNode" {
 					listener += ";" + x.str(c.Args[3]) + ";" + x.str(c.Args[4])
 				}
 			}
@@ -1203,6 +1232,53 @@ func (x *extractor) factsVerify() {
 			return true
 		})
 	}
+	// the per-connection verifier that the stream listener installs for the name binding: does it keep the pins of the
+	// server profile (by running the profile's own verifier first), or does it replace that verifier with a pin-less one?
+	lpins := "unknown"
+	if fd := x.fn("pkg/netceptor/conn.go", "Netceptor", "listen"); fd != nil {
+		body := x.str(fd.Body)
+		switch {
+		case strings.Contains(body, "profileVerify := tlscfg.VerifyPeerCertificate") && strings.Contains(body, "if err := profileVerify(rawCerts, verifiedChains); err != nil {") &&
+			strings.Contains(body, "return nameVerify(rawCerts, verifiedChains)"):
+			lpins = "chained-with-profile-verifier"
+		case strings.Contains(body, "clientTLSCfg.VerifyPeerCertificate = ReceptorVerifyFunc(tlscfg, [][]byte{}"):
+			lpins = "replaced-without-pins"
+		}
+	}
+	// GetClientTLSConfig works on a copy of the stored profile: the clone comes before anything is written
+	ccl := "unknown"
+	if fd := x.fn(netceptorGo, "Netceptor", "GetClientTLSConfig"); fd != nil {
+		var clonePos, firstWrite token.Pos
+		ast.Inspect(fd, func(n ast.Node) bool {
+			if as, ok := n.(*ast.AssignStmt); ok && len(as.Lhs) == 1 {
+				l := x.str(as.Lhs[0])
+				if l == "tlscfg" && x.str(as.Rhs[0]) == "tlscfg.Clone()" && clonePos == 0 {
+					clonePos = as.Pos()
+				}
+				if strings.HasPrefix(l, "tlscfg.") && firstWrite == 0 {
+					firstWrite = as.Pos()
+				}
+			}
+			return true
+		})
+		switch {
+		case clonePos != 0 && firstWrite != 0 && clonePos < firstWrite:
+			ccl = "clone-before-first-write"
+		case clonePos == 0:
+			ccl = "no-clone-of-the-stored-profile"
+		default:
+			ccl = "written-before-clone"
+		}
+		// what is returned
+		ast.Inspect(fd, func(n ast.Node) bool {
+			if rs, ok := n.(*ast.ReturnStmt); ok && len(rs.Results) == 2 && x.str(rs.Results[1]) == "nil" && x.str(rs.Results[0]) != "nil" {
+				ccl += ";returns:" + x.str(rs.Results[0])
+			}
+			return true
+		})
+	}
+	x.set("tls_client_cfg_clone", ccl)
+	x.set("tls_listener_pins", lpins)
 	x.set("tls_server_clientauth", clientAuth)
 	x.set("tls_listener_bind_when", bind)
 	x.set("rvf_pin_lengths", pins)
